@@ -18,6 +18,10 @@ mod diff;
 #[cfg(feature = "std")]
 mod mon_exec;
 mod mon_c06;
+mod mon_c10;
+mod mon_c09;
+mod mon_c08;
+mod mon_c07;
 mod mon_soup;
 mod mon_c02;
 mod mon_text;
@@ -87,6 +91,10 @@ fn main() {
         #[cfg(feature = "std")]
         "C01" | "C03" | "C04" => mon_exec::run(&a.prop.clone(), &a, &mut rep),
         "C06" => mon_c06::run(&a, &mut rep),
+        "C10" => mon_c10::run(&a, &mut rep),
+        "C09" => mon_c09::run(&a, &mut rep),
+        "C08" => mon_c08::run(&a, &mut rep),
+        "C07" => mon_c07::run(&a, &mut rep),
         "C05" => mon_soup::run_c05(&a, &mut rep),
         "C12" => mon_soup::run_c12(&a, &mut rep),
         "C02" => mon_c02::run(&a, &mut rep, false),
